@@ -317,6 +317,11 @@ class _ReadSourceGenerator:
                     reads.append(f"_b = {getter}")
                     item_parser = parser_template.format(type="_et", getter=f"_b[i:i + {field_type.type.size}]")
                     list_comp = f"[{item_parser} for i in range(0, {count}, {field_type.type.size})]"
+                elif issubclass(field_type.type, Pointer) and issubclass(read_type, Int):
+                    # The pointer type is a byte based integer (e.g. uint24), decode every element from its bytes
+                    reads.append(f"_b = {getter}")
+                    item_parser = f"_et.__new__(_et, cls.cs.pointer(_b[i:i + {read_type.size}]), stream, r)"
+                    list_comp = f"[{item_parser} for i in range(0, {count}, {read_type.size})]"
                 elif issubclass(field_type.type, Pointer):
                     item_parser = "_et.__new__(_et, e, stream, r)"
                     list_comp = f"[{item_parser} for e in {getter}]"
@@ -329,6 +334,9 @@ class _ReadSourceGenerator:
                 parser = f"type.__call__({self._map_field(field)}, {getter})"
             elif issubclass(field_type, Pointer):
                 reads.append(f"_pt = {self._map_field(field)}")
+                if issubclass(read_type, Int):
+                    # The pointer type is a byte based integer (e.g. uint24), decode it from its bytes
+                    getter = f"cls.cs.pointer({getter})"
                 parser = f"_pt.__new__(_pt, {getter}, stream, r)"
             else:
                 parser = parser_template.format(type=self._map_field(field), getter=getter)
